@@ -914,3 +914,250 @@ def spec_to_stokes_f64(c, self):
     # after a basis change the data are complex128, so the Stokes parameters are float64
     r.data = A.astype(c.ctx, r.data, DType("float64"))
     return r
+
+
+# --------------------------------------------------------------------------- element-wise NumPy operations (C17)
+
+class UFunc:
+    """An arbitrary element-wise ufunc: uninterpreted element function of its inputs."""
+
+    def __init__(self, name, nin, nout, out_dtype="float64"):
+        self.name, self.nin, self.nout, self.out_dtype = name, nin, nout, out_dtype
+
+
+def ufunc_elem(uf, k, vals):
+    """k-th output of the ufunc at one element (uninterpreted in symbolic mode, a fixed
+    arithmetic combination in concrete mode so that the real np ufunc can be compared)."""
+    flat = []
+    for v in vals:
+        cv = Cx.of(v) if isinstance(v, Cx) else None
+        if cv is not None:
+            flat += [cv.re, cv.im]
+        else:
+            flat += [V.Ite(v, 1, 0) if (isinstance(v, bool) or (is_sym(v) and z3.is_bool(v))) else v, 0]
+    if any(is_sym(x) for x in flat):
+        f = z3.Function(f"uf_{uf.name}_{k}", *([z3.RealSort()] * len(flat)), z3.RealSort())
+        return f(*[V.R(V.Z(x)) for x in flat])
+    return uf.concrete(k, vals)
+
+
+def apply_ufunc(ctx, uf, in_arr, out_arr):
+    """Spec/stub of calling a ufunc on unwrapped operands: results are fresh arrays unless an
+    `out` array is given, in which case that array is written and returned."""
+    ops = list(in_arr)
+    arrs = [o for o in ops if isinstance(o, SArr)]
+    results = []
+    for k in range(uf.nout):
+        res = A.elementwise(ctx, lambda *vals, k=k: ufunc_elem(uf, k, vals), ops, DType(uf.out_dtype)) if arrs else \
+            ufunc_elem(uf, k, ops)
+        o = out_arr[k] if out_arr is not None else None
+        if o is not None:
+            if not isinstance(o, SArr):
+                raise PyExc("TypeError", "return arrays must be of ArrayType")
+            o.elem = res.elem
+            o.written = True
+            results.append(o)
+        else:
+            results.append(res)
+    return results[0] if uf.nout == 1 else tuple(results)
+
+
+def install_ufunc_stub(interp):
+    """Calling a UFunc value inside interpreted code."""
+    from pyvc.interp import Stub
+    base_getattr = interp.stubs.value_getattr
+
+    def value_getattr(v, name, ctx):
+        if isinstance(v, UFunc):
+            if name in ("nin", "nout"):
+                return getattr(v, name)
+            raise PyExc("AttributeError", name)
+        return base_getattr(v, name, ctx)
+    interp.stubs.value_getattr = value_getattr
+    base_call = interp.call
+
+    def call(f, args, kwargs, ctx):
+        if isinstance(f, UFunc):
+            kwargs = dict(kwargs)
+            out = kwargs.pop("out", None)
+            if kwargs:
+                raise PyExc("TypeError", "unexpected ufunc keyword")
+            if out is not None and all(o is None for o in out):
+                out = None
+            for o in (out or ()):
+                if isinstance(o, SArr):
+                    interp.stubs.frame_write_arr(o, "ufunc out=", ctx)
+            for a in args:
+                if isinstance(a, Obj):
+                    raise PyExc("TypeError", "ufunc received a Signal operand (not unwrapped)")
+            return apply_ufunc(ctx, f, args, out)
+        return base_call(f, args, kwargs, ctx)
+    interp.call = call
+    base_ident = interp.identical
+
+    def identical(a, b):
+        if isinstance(a, UFunc) or isinstance(b, UFunc):
+            # np.matmul is the NS registered in the numpy stub
+            na = a.name if isinstance(a, UFunc) else getattr(a, "name", None)
+            nb = b.name if isinstance(b, UFunc) else getattr(b, "name", None)
+            return {"ufunc:matmul": "matmul"}.get(na, na) == {"ufunc:matmul": "matmul"}.get(nb, nb)
+        return base_ident(a, b)
+    interp.identical = identical
+    base_eq = interp.stubs.generic_eq
+
+    def generic_eq(a, b, ctx):
+        if isinstance(a, UFunc) or isinstance(b, UFunc):
+            return identical(a, b)
+        return base_eq(a, b, ctx)
+    interp.stubs.generic_eq = generic_eq
+
+
+SETUP = [install_ufunc_stub]
+
+UF_ARRANGEMENTS = ["s", "sa", "as", "sx", "xs", "ss", "st"]      # s signal, a array, x scalar, t other-class signal
+
+
+def inst_ufunc():
+    out = []
+    for cls in ["Signal", "RadioSignal", "DualPolarizationSignal"]:
+        for arr in UF_ARRANGEMENTS:
+            for nout in (1, 2):
+                for outk in ("none", "sig", "arr"):
+                    if outk != "none" and (nout == 2 and arr not in ("s", "ss")):
+                        continue
+                    for be in (("numpy", "dask") if outk == "none" and nout == 1 and arr in ("s", "sa", "ss") else ("numpy",)):
+                        def build(interp, ctx, nm, cls=cls, arr=arr, nout=nout, outk=outk, be=be):
+                            from pyvc.sigmodel import DEFAULT_DTYPE
+                            dt = DEFAULT_DTYPE[cls]
+                            z = mk_signal(interp, ctx, "z", cls, backend=be, nm=nm)
+                            shape = z.ghost["data"].shape
+                            inputs = []
+                            for j, ch in enumerate(arr):
+                                if ch == "s" and j == arr.index("s"):
+                                    inputs.append(z)
+                                elif ch == "s":
+                                    w = mk_signal(interp, ctx, "w", cls, backend=be, has_t0=False, dims=dict(enumerate(shape)), nm=nm)
+                                    inputs.append(w)
+                                elif ch == "t":
+                                    w = mk_signal(interp, ctx, "w", "Signal", backend=be, has_t0=False, dims=dict(enumerate(shape)), dtype=dt, nm=nm)
+                                    inputs.append(w)
+                                elif ch == "a":
+                                    inputs.append(sym_array("opnd", shape, dt, be, nm=nm))
+                                else:
+                                    inputs.append(nm.real("scalar", 3))
+                            uf = UFunc(f"g{len(arr)}{nout}", len(arr), nout, out_dtype=dt)
+                            uf.concrete = None
+                            kw = {}
+                            if outk == "sig":
+                                kw["out"] = tuple(mk_signal(interp, ctx, f"o{k}", cls, has_t0=False, align="bottom", dims=dict(enumerate(shape)), nm=nm) for k in range(nout))
+                            elif outk == "arr":
+                                kw["out"] = tuple(sym_array(f"oarr{k}", shape, dt, nm=nm) for k in range(nout))
+                            return (z, uf, "__call__") + tuple(inputs), kw
+                        out.append(Instance(f"{cls},{arr},nout={nout},out={outk},{be}", build))
+    # refused forms
+    for method in ("reduce", "accumulate", "outer", "at", "reduceat"):
+        def build(interp, ctx, nm, method=method):
+            z = mk_signal(interp, ctx, "z", "RadioSignal", nm=nm)
+            return (z, UFunc("g11", 1, 1), method, z), {}
+        out.append(Instance(f"method={method}", build))
+    def build(interp, ctx, nm):
+        z = mk_signal(interp, ctx, "z", "BasebandSignal", nm=nm)
+        return (z, UFunc("matmul", 2, 1), "__call__", z, z), {}
+    out.append(Instance("matmul", build))
+    return out
+
+
+def spec_array_ufunc(c, self, ufunc, method, *inputs, out=None, **kwargs):
+    """Values are the ufunc of the underlying arrays; each output is the given out object when one
+    was given, else wrapped in the type and metadata of `self` (the operand NumPy dispatched to);
+    non-call methods and matmul are refused (NotImplemented -> TypeError in NumPy)."""
+    from pyvc.interp import NOTIMPL
+    if method != "__call__" or ufunc.name == "matmul":
+        return NOTIMPL
+    g = c.view(self)
+    in_arr = [c.view(i).data if isinstance(i, Obj) else i for i in inputs]
+    outs = out if out is not None else (None,) * ufunc.nout
+    out_arr = [c.view(o).data if isinstance(o, Obj) else o for o in outs]
+    res = apply_ufunc(c.ctx, ufunc, in_arr, out_arr if any(o is not None for o in out_arr) else None)
+    res = (res,) if ufunc.nout == 1 else res
+    final = []
+    for r, o in zip(res, outs):
+        if o is None:
+            final.append(construct(c, g.cls, r, g.attrs()))
+        elif isinstance(o, Obj):
+            final.append(OutObj(o, r))
+        else:
+            final.append(OutArr(o, r))
+    return final[0] if len(final) == 1 else tuple(final)
+
+
+class OutObj:
+    """The *given* out signal: identity preserved, metadata untouched, data = the ufunc values."""
+
+    def __init__(self, obj, arr):
+        self.obj, self.arr = obj, arr
+
+    def compare_to(self, interp, ctx, name, got):
+        from pyvc.contract import compare_values, SigView
+        same = isinstance(got, Obj) and getattr(got, "ghost", None) is not None and got.ghost["data"].name == self.obj.ghost["data"].name
+        ctx.oblige(f"{name}.is-given-out", bool(same), "post")
+        if same:
+            compare_values(interp, ctx, f"{name}.out-data", interp.get_attr(got, "data", ctx), self.arr)
+            v = SigView(interp, ctx, self.obj)
+            for k, w in v.attrs().items():
+                compare_values(interp, ctx, f"{name}.out-meta.{k}", interp.get_attr(got, k, ctx), w)
+
+
+class OutArr:
+    def __init__(self, arr0, arr):
+        self.arr0, self.arr = arr0, arr
+
+    def compare_to(self, interp, ctx, name, got):
+        from pyvc.contract import compare_values
+        same = isinstance(got, SArr) and got.name == self.arr0.name
+        ctx.oblige(f"{name}.is-given-out", bool(same), "post")
+        if same:
+            compare_values(interp, ctx, f"{name}.out-data", got, self.arr)
+
+
+_uc = Contract("pulsarbat.core.Signal.__array_ufunc__", spec_array_ufunc, inst_ufunc(), props=("C17",))
+_uc.no_bounded = True       # the concrete side of C17 is the NumPy-ufunc sweep in props/c17.py
+_uc.sanctioned_out = True
+CONTRACTS.append(_uc)
+
+
+def inst_array():
+    out = []
+    for cls in ["Signal", "BasebandSignal"]:
+        for be in ("numpy", "dask"):
+            for form in ("plain", "dtype-positional", "dtype-copy-keywords", "same-dtype-keyword"):
+                def build(interp, ctx, nm, cls=cls, be=be, form=form):
+                    z = mk_signal(interp, ctx, "z", cls, backend=be, nm=nm)
+                    if form == "plain":
+                        return (z,), {}
+                    if form == "dtype-positional":
+                        return (z, DType("complex128")), {}
+                    if form == "same-dtype-keyword":
+                        return (z,), {"dtype": None, "copy": None}
+                    return (z,), {"dtype": DType("complex128"), "copy": None}
+                out.append(Instance(f"{cls},{be},{form}", build))
+    return out
+
+
+def array_real(pb, rargs, rkwargs):
+    import numpy as np
+    dt = rargs[1] if len(rargs) > 1 else rkwargs.get("dtype")
+    return np.asarray(rargs[0], dtype=dt) if dt is not None else np.asarray(rargs[0])
+
+
+@contract("pulsarbat.core.Signal.__array__", inst_array(), props=("C17",))
+def spec_array(c, self, dtype=None, copy=None):
+    """np.asarray(signal) yields its data as a NumPy array."""
+    g = c.view(self)
+    d = g.data
+    if dtype is not None and dtype != d.dtype:
+        d = A.astype(c.ctx, d, dtype)
+    return SArr(d.shape, d.elem, d.dtype, "numpy")
+
+
+CONTRACTS[-1].real_call = array_real
